@@ -126,6 +126,13 @@ CHECKS = {
         note="'All smooth potentials' is represented by four; time steps within their stability range. The normal law itself is numpy's (trusted).",
         technique="exhaustive grid enumeration on the implementation plus stateless exploration of Hamiltonian trials with an independent reference integrator",
     ),
+    "C12": dict(
+        category="model_checking",
+        text="All accept/reject/fail histories (depth 2 quick, 3 thorough) of real simulations with FixAtoms on every subset of <= 2 atoms, or FixCom, for Ball/Translation/D*2/D+D displacement moves, Rotation/TranslationRotation of a molecule, Hamiltonian moves (Verlet 1 fs x 3 steps, 2 fs x 1 step; check_move answers) and displacement trials inside Isobaric/GrandCanonical runs: after every trial the fixed atoms are bitwise at their start positions and the fixed centre of mass has not drifted (1e-10). ForceBias: all sequences of 2-3 steps over prescribed generator answers x delta x T with FixAtoms/FixCom. FixRot.adjust_momenta: every non-collinear placement of 3 (4) atoms on a 3x3x2 lattice x 4 mass sets x 6 momentum patterns: zero total angular momentum, unchanged linear momentum.",
+        design_ref="4-C12",
+        note="FixAtoms and FixCom are not combined (ASE itself moves the fixed atom then). Cell moves are not judged.",
+        technique="stateless exhaustive exploration of the implementation with constraint invariants evaluated after every trial",
+    ),
 }
 
 NA_REASON = "check not built yet in this session (design in DESIGN.md); no claim is made"
